@@ -1,4 +1,979 @@
 (* Proofs/Occupancy.v -- lemmas about Model/Occupancy.v (property C04). *)
-From Coq Require Import QArith Qabs ZArith Bool List Lia Lqa Qminmax.
-From CR Require Import Base.QMod Model.Interval Model.Transform Model.Shapes Model.Occupancy.
+From Coq Require Import QArith Qabs ZArith Bool List Lia Lqa Qminmax Permutation.
+From CR Require Import Base.QMod Model.Interval Model.Transform Proofs.Transform Model.Shapes Model.Scene
+  Proofs.Shapes Model.Occupancy.
 Import ListNotations.
+
+(* ================================================================== (i) dispatch *)
+Section DispatchP.
+  Open Scope Z_scope.
+  Variables S R : Type.
+  Variable tstep : S -> Z.
+  Variable place : S -> R.
+
+  Notation occ := (occ R).
+  Notation obstacle := (obstacle S R).
+  Notation lookup := (@lookup R).
+  Notation state_at_time_step := (@state_at_time_step S).
+  Notation occupancy_set := (occupancy_set S R tstep place).
+  Notation occupancy_at_time := (occupancy_at_time S R tstep place).
+  Notation state_at_time := (state_at_time S R tstep).
+
+  (* what it means that an occupancy is stored for the time step t *)
+  Definition key_covers (k : tkey) (t : Z) : Prop :=
+    match k with TStep u => u = t | TItv a b => a <= t <= b end.
+
+  Lemma key_matches_spec k t : key_matches k t = true <-> key_covers k t.
+  Proof.
+    destruct k as [u|a b]; simpl.
+    - apply Z.eqb_eq.
+    - rewrite andb_true_iff, !Z.leb_le. tauto.
+  Qed.
+
+  Lemma key_matches_false k t : key_matches k t = false <-> ~ key_covers k t.
+  Proof. rewrite <- key_matches_spec. destruct (key_matches k t); split; congruence. Qed.
+
+  (* Prediction.occupancy_at_time_step returns the FIRST stored occupancy whose key covers t *)
+  Lemma lookup_some l t o : lookup l t = Some o <->
+    exists pre post, l = pre ++ o :: post /\ key_covers (o_time o) t /\
+                     Forall (fun x => ~ key_covers (o_time x) t) pre.
+  Proof.
+    induction l as [|x r IH]; simpl.
+    - split; [discriminate|]. intros [pre [post [H _]]]. destruct pre; discriminate.
+    - destruct (key_matches (o_time x) t) eqn:E.
+      + split.
+        * intro H. inversion H; subst. exists [], r. repeat split; [apply key_matches_spec; exact E | constructor].
+        * intros [pre [post [H [Hk Hpre]]]]. destruct pre as [|y pre]; simpl in H; inversion H; subst; [reflexivity|].
+          inversion Hpre as [|? ? Hy _]; subst. apply key_matches_spec in E. contradiction.
+      + rewrite IH. split.
+        * intros [pre [post [H [Hk Hpre]]]]. exists (x :: pre), post. subst. repeat split; auto.
+          constructor; [apply key_matches_false; exact E | exact Hpre].
+        * intros [pre [post [H [Hk Hpre]]]]. destruct pre as [|y pre]; simpl in H; inversion H; subst.
+          -- apply key_matches_false in E. contradiction.
+          -- inversion Hpre; subst. exists pre, post. auto.
+  Qed.
+
+  Lemma lookup_none l t : lookup l t = None <-> Forall (fun x => ~ key_covers (o_time x) t) l.
+  Proof.
+    induction l as [|x r IH]; simpl; [split; [constructor | reflexivity]|].
+    destruct (key_matches (o_time x) t) eqn:E.
+    - split; [discriminate|]. intro H. inversion H as [|? ? Hx _]; subst. apply key_matches_spec in E. contradiction.
+    - rewrite IH. split; intro H.
+      + constructor; [apply key_matches_false; exact E | exact H].
+      + inversion H; assumption.
+  Qed.
+
+  (* whatever lookup returns is one of the stored occupancies and covers t *)
+  Lemma lookup_sound l t o : lookup l t = Some o -> In o l /\ key_covers (o_time o) t.
+  Proof.
+    intro H. apply lookup_some in H. destruct H as [pre [post [E [Hk _]]]]. subst. split; [|exact Hk].
+    apply in_or_app. right. left. reflexivity.
+  Qed.
+
+  (* ---- Trajectory.state_at_time_step *)
+  Lemma state_at_time_step_some (tr : traj S) t s : state_at_time_step tr t = Some s <->
+    t_init tr <= t /\ nth_error (t_states tr) (Z.to_nat (t - t_init tr)) = Some s.
+  Proof.
+    unfold Occupancy.state_at_time_step.
+    destruct (Z.leb_spec (t_init tr) t) as [H1|H1]; simpl.
+    - destruct (Z.ltb_spec t (t_init tr + Z.of_nat (List.length (t_states tr)))) as [H2|H2].
+      + tauto.
+      + split; [discriminate|]. intros [_ H]. exfalso.
+        assert (Hn : nth_error (t_states tr) (Z.to_nat (t - t_init tr)) <> None) by congruence.
+        apply nth_error_Some in Hn. lia.
+    - split; [discriminate|]. lia.
+  Qed.
+
+  Lemma state_at_time_step_defined (tr : traj S) t : (exists s, state_at_time_step tr t = Some s) <->
+    t_init tr <= t < t_init tr + Z.of_nat (List.length (t_states tr)).
+  Proof.
+    split.
+    - intros [s H]. apply state_at_time_step_some in H. destruct H as [H1 H2].
+      assert (Hn : nth_error (t_states tr) (Z.to_nat (t - t_init tr)) <> None) by congruence.
+      apply nth_error_Some in Hn. lia.
+    - intros [H1 H2]. destruct (nth_error (t_states tr) (Z.to_nat (t - t_init tr))) as [s|] eqn:E.
+      + exists s. apply state_at_time_step_some. auto.
+      + apply nth_error_None in E. lia.
+  Qed.
+
+  Lemma state_at_time_step_none (tr : traj S) t : state_at_time_step tr t = None <->
+    t < t_init tr \/ t_init tr + Z.of_nat (List.length (t_states tr)) <= t.
+  Proof.
+    destruct (state_at_time_step tr t) as [s|] eqn:E.
+    - split; [discriminate|]. intro H. assert (Hd : exists s, state_at_time_step tr t = Some s) by (exists s; exact E).
+      apply state_at_time_step_defined in Hd. lia.
+    - split; [|reflexivity]. intros _.
+      destruct (Z.lt_ge_cases t (t_init tr)) as [|H1]; [left; assumption|].
+      destruct (Z.lt_ge_cases t (t_init tr + Z.of_nat (List.length (t_states tr)))) as [H2|]; [|right; lia].
+      exfalso. assert (Hd : exists s, state_at_time_step tr t = Some s) by (apply state_at_time_step_defined; lia).
+      destruct Hd as [s Hs]. congruence.
+  Qed.
+
+  (* DESIGN 2.7: trajectories with consecutive time steps (state i carries time step t_init + i) *)
+  Fixpoint consec (t : Z) (l : list S) : bool :=
+    match l with [] => true | s :: r => Z.eqb (tstep s) t && consec (t + 1) r end.
+  Definition consecutive (tr : traj S) : bool := consec (t_init tr) (t_states tr).
+
+  Lemma consec_nth : forall l t i s, consec t l = true -> nth_error l i = Some s -> tstep s = t + Z.of_nat i.
+  Proof.
+    induction l as [|x r IH]; intros t i s Hc Hn; [destruct i; discriminate|].
+    simpl in Hc. apply andb_true_iff in Hc. destruct Hc as [Hx Hr]. apply Z.eqb_eq in Hx.
+    destruct i as [|i]; simpl in Hn.
+    - inversion Hn; subst. lia.
+    - rewrite (IH _ _ _ Hr Hn). lia.
+  Qed.
+
+  (* the state returned for t is the one whose time step is t *)
+  Lemma state_at_time_step_consecutive tr t s : consecutive tr = true ->
+    (state_at_time_step tr t = Some s <-> In s (t_states tr) /\ tstep s = t).
+  Proof.
+    intro Hc. rewrite state_at_time_step_some. split.
+    - intros [H1 H2]. split; [eapply nth_error_In; exact H2|].
+      rewrite (consec_nth _ _ _ _ Hc H2). lia.
+    - intros [Hin Ht]. apply In_nth_error in Hin. destruct Hin as [i Hi].
+      pose proof (consec_nth _ _ _ _ Hc Hi) as E. split; [lia|].
+      replace (Z.to_nat (t - t_init tr)) with i by lia. exact Hi.
+  Qed.
+
+  Lemma state_at_time_step_consecutive_none tr t : consecutive tr = true ->
+    (state_at_time_step tr t = None <-> forall s, In s (t_states tr) -> tstep s <> t).
+  Proof.
+    intro Hc. split.
+    - intros H s Hin Ht. assert (E : state_at_time_step tr t = Some s)
+        by (apply state_at_time_step_consecutive; auto). congruence.
+    - intro H. destruct (state_at_time_step tr t) as [s|] eqn:E; [|reflexivity].
+      apply state_at_time_step_consecutive in E; [|exact Hc]. destruct E as [Hin Ht]. exfalso. exact (H s Hin Ht).
+  Qed.
+
+  (* ---- TrajectoryPrediction: the occupancy found for t is the shape placed at the first state with time step t *)
+  Definition occ_of (t : Z) (s : S) : occ := {| o_time := TStep t; o_region := place s |}.
+
+  Lemma lookup_occupancy_set_find : forall l t,
+    lookup (map (fun s => {| o_time := TStep (tstep s); o_region := place s |}) l) t =
+    option_map (occ_of t) (find (fun s => Z.eqb (tstep s) t) l).
+  Proof.
+    induction l as [|x r IH]; intro t; simpl; [reflexivity|].
+    destruct (Z.eqb_spec (tstep x) t) as [E|E]; [|apply IH].
+    simpl. unfold occ_of. rewrite E. reflexivity.
+  Qed.
+
+  Lemma find_consec : forall l t0 t, consec t0 l = true ->
+    find (fun s => Z.eqb (tstep s) t) l = if Z.leb t0 t then nth_error l (Z.to_nat (t - t0)) else None.
+  Proof.
+    induction l as [|x r IH]; intros t0 t Hc; simpl.
+    - destruct (Z.leb t0 t); [|reflexivity]. destruct (Z.to_nat (t - t0)); reflexivity.
+    - simpl in Hc. apply andb_true_iff in Hc. destruct Hc as [Hx Hr]. apply Z.eqb_eq in Hx. rewrite Hx.
+      destruct (Z.eqb_spec t0 t) as [E|E].
+      + subst t. rewrite Z.leb_refl. replace (Z.to_nat (t0 - t0)) with O by lia. reflexivity.
+      + rewrite (IH _ _ Hr). destruct (Z.leb_spec t0 t) as [H1|H1].
+        * destruct (Z.leb_spec (t0 + 1) t) as [H2|H2]; [|lia].
+          replace (Z.to_nat (t - t0)) with (Datatypes.S (Z.to_nat (t - (t0 + 1)))) by lia. reflexivity.
+        * destruct (Z.leb_spec (t0 + 1) t) as [H2|H2]; [lia|reflexivity].
+  Qed.
+
+  Lemma traj_occupancy_is_placed_state tr t : consecutive tr = true ->
+    pred_occupancy_at S R tstep place (PrTraj tr) t = option_map (occ_of t) (state_at_time_step tr t).
+  Proof.
+    intro Hc. simpl. unfold Occupancy.occupancy_set. rewrite lookup_occupancy_set_find.
+    rewrite (find_consec _ _ _ Hc). unfold Occupancy.state_at_time_step.
+    destruct (Z.leb_spec (t_init tr) t) as [H1|H1]; simpl; [|reflexivity].
+    destruct (Z.ltb_spec t (t_init tr + Z.of_nat (List.length (t_states tr)))) as [H2|H2]; [reflexivity|].
+    assert (E : nth_error (t_states tr) (Z.to_nat (t - t_init tr)) = None) by (apply nth_error_None; lia).
+    rewrite E. reflexivity.
+  Qed.
+
+  (* ---- per obstacle.  [has_states o]: the obstacle's occupancies are computed from states (static, dynamic
+     without prediction or with a trajectory prediction of consecutive time steps) *)
+  Definition state_based (o : obstacle) : bool :=
+    match o with
+    | Static _ _ _ => true
+    | Dynamic _ _ _ None => true
+    | Dynamic _ _ _ (Some (PrTraj tr)) => consecutive tr
+    | _ => false
+    end.
+
+  (* THE statement: the occupancy at t is the obstacle's shape placed at its state at t, and None when it has none *)
+  Lemma occupancy_is_placed_state o t : state_based o = true ->
+    occupancy_at_time o t = option_map (occ_of t) (state_at_time o t).
+  Proof.
+    destruct o as [i ty init|i ty init [[tr|l]|]|i p|i ty reg]; simpl; try discriminate; intro Hc.
+    - reflexivity.
+    - destruct (Z.eqb t (tstep init)); [reflexivity|]. destruct (Z.ltb (tstep init) t); [|reflexivity].
+      exact (traj_occupancy_is_placed_state tr t Hc).
+    - destruct (Z.eqb t (tstep init)); [reflexivity|]. destruct (Z.ltb (tstep init) t); reflexivity.
+  Qed.
+
+  (* for dynamic obstacles the state returned for t is the one whose time step is t *)
+  Lemma dynamic_state_time i ty init pred t s : state_based (Dynamic i ty init pred) = true ->
+    state_at_time (Dynamic i ty init pred) t = Some s -> tstep s = t.
+  Proof.
+    simpl. destruct (Z.eqb_spec t (tstep init)) as [E|E].
+    - intros _ H. inversion H; subst. reflexivity.
+    - destruct pred as [[tr|l]|]; try discriminate. intros Hc.
+      destruct (Z.ltb (tstep init) t); [|discriminate]. intro H.
+      apply (state_at_time_step_consecutive tr t s Hc) in H. tauto.
+  Qed.
+
+  (* which state: the initial one at its own time step, the trajectory's afterwards, none before / beyond *)
+  Lemma dynamic_state_dispatch i ty init tr t : consecutive tr = true ->
+    state_at_time (Dynamic i ty init (Some (PrTraj tr))) t =
+      if Z.eqb t (tstep init) then Some init
+      else if Z.ltb (tstep init) t && Z.leb (t_init tr) t && Z.ltb t (t_init tr + Z.of_nat (List.length (t_states tr)))
+           then nth_error (t_states tr) (Z.to_nat (t - t_init tr)) else None.
+  Proof.
+    intros _. simpl. destruct (Z.eqb t (tstep init)); [reflexivity|].
+    destruct (Z.ltb (tstep init) t); [|reflexivity]. reflexivity.
+  Qed.
+
+  (* None outside the horizon, something inside *)
+  Lemma dynamic_occupancy_none_iff i ty init tr t : consecutive tr = true ->
+    (occupancy_at_time (Dynamic i ty init (Some (PrTraj tr))) t = None <->
+     t < tstep init \/ (tstep init < t /\ (t < t_init tr \/ t_init tr + Z.of_nat (List.length (t_states tr)) <= t))).
+  Proof.
+    intro Hc. rewrite (occupancy_is_placed_state (Dynamic i ty init (Some (PrTraj tr))) t Hc). simpl.
+    destruct (Z.eqb_spec t (tstep init)) as [E|E]; simpl.
+    - split; [discriminate|]. lia.
+    - destruct (Z.ltb_spec (tstep init) t) as [H|H].
+      + destruct (state_at_time_step tr t) as [s|] eqn:Es; simpl.
+        * split; [discriminate|]. intro H'. exfalso.
+          assert (Hn : state_at_time_step tr t = None) by (apply state_at_time_step_none; lia). congruence.
+        * apply state_at_time_step_none in Es. split; [|reflexivity]. intros _. right. lia.
+      + split; [|reflexivity]. intros _. left. lia.
+  Qed.
+
+  Lemma dynamic_no_prediction i ty init t :
+    occupancy_at_time (Dynamic i ty init None) t =
+      if Z.eqb t (tstep init) then Some (occ_of t init) else None.
+  Proof. simpl. destruct (Z.eqb t (tstep init)); [reflexivity|]. destruct (Z.ltb (tstep init) t); reflexivity. Qed.
+
+  (* set-based prediction: initial occupancy at t0, the first stored occupancy covering t afterwards, None before;
+     no state other than the initial one *)
+  Lemma dynamic_set_based i ty init l t :
+    occupancy_at_time (Dynamic i ty init (Some (PrSet l))) t =
+      (if Z.eqb t (tstep init) then Some (occ_of t init) else if Z.ltb (tstep init) t then lookup l t else None) /\
+    state_at_time (Dynamic i ty init (Some (PrSet l))) t = (if Z.eqb t (tstep init) then Some init else None).
+  Proof. simpl. split; reflexivity. Qed.
+
+  Lemma phantom_dispatch i p t :
+    occupancy_at_time (Phantom i p) t = match p with Some l => lookup l t | None => None end /\
+    state_at_time (Phantom i p) t = None.
+  Proof. simpl. split; reflexivity. Qed.
+
+  (* static and environment obstacles: the same region at all times, never None *)
+  Lemma static_same_region i ty init t :
+    occupancy_at_time (Static i ty init) t = Some (occ_of t init) /\ state_at_time (Static i ty init) t = Some init.
+  Proof. simpl. split; reflexivity. Qed.
+  Lemma environment_same_region i ty reg t :
+    occupancy_at_time (Env i ty reg) t = Some {| o_time := TStep t; o_region := reg |}.
+  Proof. reflexivity. Qed.
+  Lemma time_invariant_region o t t' : ob_role S R o = RStatic \/ ob_role S R o = REnvironment ->
+    option_map (@o_region R) (occupancy_at_time o t) = option_map (@o_region R) (occupancy_at_time o t') /\
+    occupancy_at_time o t <> None.
+  Proof.
+    destruct o; simpl; intros [H|H]; try discriminate; split; try reflexivity; discriminate.
+  Qed.
+
+  (* ---- scenario level *)
+  Lemma fold_snoc {A B} (f : list B -> A -> list B) (g : A -> list B) :
+    (forall acc o, f acc o = acc ++ g o) -> forall l a, fold_left f l a = a ++ flat_map g l.
+  Proof.
+    intros H. induction l as [|x r IH]; intro a; simpl; [rewrite app_nil_r; reflexivity|].
+    rewrite IH, H, <- app_assoc. reflexivity.
+  Qed.
+
+  (* Scenario.obstacles lists every stored obstacle exactly once *)
+  Lemma all_obstacles_perm (obs : list obstacle) : Permutation (all_obstacles S R obs) obs.
+  Proof.
+    unfold all_obstacles, is_role. induction obs as [|o r IH]; [constructor|].
+    simpl. destruct (ob_role S R o); simpl.
+    - constructor. exact IH.
+    - symmetry. apply Permutation_cons_app. symmetry. exact IH.
+    - symmetry. rewrite 2!app_assoc. apply Permutation_cons_app. rewrite <- 2!app_assoc. symmetry. exact IH.
+    - symmetry. rewrite app_assoc. apply Permutation_cons_app. rewrite <- app_assoc. symmetry. exact IH.
+  Qed.
+
+  Definition occ_sel (r : option role) (t : Z) (o : obstacle) : list (Z * occ) :=
+    if role_ok S R r o then match occupancy_at_time o t with Some oc => [(ob_id S R o, oc)] | None => [] end else [].
+
+  Lemma occupancies_at_time_step_eq obs t r :
+    occupancies_at_time_step S R tstep place obs t r =
+      if Z.leb 0 t then Ok (flat_map (occ_sel r t) (all_obstacles S R obs)) else Err.
+  Proof.
+    unfold Occupancy.occupancies_at_time_step. destruct (Z.leb 0 t); [|reflexivity]. f_equal.
+    rewrite (fold_snoc _ (occ_sel r t)); [reflexivity|].
+    intros acc o. unfold occ_sel. destruct (role_ok S R r o); [|rewrite app_nil_r; reflexivity].
+    destruct (occupancy_at_time o t); [reflexivity | rewrite app_nil_r; reflexivity].
+  Qed.
+
+  (* exactly the per-obstacle answers: one entry for every obstacle of the requested role that has an occupancy *)
+  Lemma occupancies_at_time_step_spec obs t r : 0 <= t ->
+    exists l, occupancies_at_time_step S R tstep place obs t r = Ok l /\
+              Permutation l (flat_map (occ_sel r t) obs) /\
+              (forall i oc, In (i, oc) l <->
+                 exists o, In o obs /\ ob_id S R o = i /\ role_ok S R r o = true /\ occupancy_at_time o t = Some oc).
+  Proof.
+    intro Ht. rewrite occupancies_at_time_step_eq. destruct (Z.leb_spec 0 t) as [_|H]; [|lia].
+    eexists. split; [reflexivity|]. split.
+    - apply Permutation_flat_map. apply all_obstacles_perm.
+    - intros i oc. rewrite in_flat_map. split.
+      + intros [o [Hin H]]. exists o. split; [eapply Permutation_in; [apply all_obstacles_perm | exact Hin]|].
+        unfold occ_sel in H. destruct (role_ok S R r o); [|contradiction].
+        destruct (occupancy_at_time o t) as [oc'|]; [|contradiction].
+        destruct H as [H|[]]. inversion H; subst. auto.
+      + intros [o [Hin [Hi [Hr Ho]]]]. exists o.
+        split; [eapply Permutation_in; [symmetry; apply all_obstacles_perm | exact Hin]|].
+        unfold occ_sel. rewrite Hr, Ho, Hi. left. reflexivity.
+  Qed.
+
+  Lemma occupancies_at_time_step_negative obs t r : t < 0 -> occupancies_at_time_step S R tstep place obs t r = Err.
+  Proof. intro H. rewrite occupancies_at_time_step_eq. destruct (Z.leb_spec 0 t); [lia|reflexivity]. Qed.
+
+  Definition type_sel (r : option role) (ty : option Z) (o : obstacle) : list Z :=
+    if role_ok S R r o && type_ok S R ty o then [ob_id S R o] else [].
+
+  Lemma obstacles_by_role_and_type_spec obs r ty :
+    Permutation (obstacles_by_role_and_type S R obs r ty) (flat_map (type_sel r ty) obs) /\
+    (forall i, In i (obstacles_by_role_and_type S R obs r ty) <->
+       exists o, In o obs /\ ob_id S R o = i /\ role_ok S R r o = true /\ type_ok S R ty o = true).
+  Proof.
+    unfold Occupancy.obstacles_by_role_and_type.
+    rewrite (fold_snoc _ (type_sel r ty)).
+    2:{ intros acc o. unfold type_sel. destruct (role_ok S R r o && type_ok S R ty o); [reflexivity | rewrite app_nil_r; reflexivity]. }
+    simpl. split; [apply Permutation_flat_map; apply all_obstacles_perm|].
+    intro i. rewrite in_flat_map. split.
+    - intros [o [Hin H]]. exists o. split; [eapply Permutation_in; [apply all_obstacles_perm | exact Hin]|].
+      unfold type_sel in H. destruct (role_ok S R r o && type_ok S R ty o) eqn:E; [|contradiction].
+      apply andb_true_iff in E. destruct H as [H|[]]. tauto.
+    - intros [o [Hin [Hi [Hr Hty]]]]. exists o.
+      split; [eapply Permutation_in; [symmetry; apply all_obstacles_perm | exact Hin]|].
+      unfold type_sel. rewrite Hr, Hty. left. exact Hi.
+  Qed.
+
+  Lemma in_filter_role r (o : obstacle) obs : In o (filter (is_role S R r) obs) <-> In o obs /\ ob_role S R o = r.
+  Proof.
+    rewrite filter_In. unfold is_role. destruct (ob_role S R o), r; simpl; split; intros [H1 H2]; split; auto; discriminate.
+  Qed.
+
+  (* obstacle_states_at_time_step: the states of exactly the static and dynamic obstacles that have one at t *)
+  Lemma obstacle_states_at_time_step_spec obs t : 0 <= t ->
+    exists l, obstacle_states_at_time_step S R tstep obs t = Ok l /\
+      (forall i s, In (i, s) l <->
+         exists o, In o obs /\ ob_id S R o = i /\ (ob_role S R o = RStatic \/ ob_role S R o = RDynamic) /\
+                   state_at_time o t = Some s).
+  Proof.
+    intro Ht. unfold Occupancy.obstacle_states_at_time_step. destruct (Z.leb_spec 0 t) as [_|H]; [|lia].
+    eexists. split; [reflexivity|].
+    rewrite (fold_snoc _ (fun o => match o with Static i _ init => [(i, init)] | _ => [] end)).
+    2:{ intros acc o. destruct o; try (rewrite app_nil_r); reflexivity. }
+    rewrite (fold_snoc _ (fun o => match state_at_time o t with Some s => [(ob_id S R o, s)] | None => [] end)).
+    2:{ intros acc o. destruct (state_at_time o t); try (rewrite app_nil_r); reflexivity. }
+    simpl. intros i s. rewrite in_app_iff, !in_flat_map. split.
+    - intros [[o [Hin H]]|[o [Hin H]]]; apply in_filter_role in Hin; destruct Hin as [Hin Hr]; exists o.
+      + destruct (state_at_time o t) as [s'|] eqn:E; [|contradiction]. destruct H as [H|[]]. inversion H; subst. auto.
+      + destruct o; try contradiction. destruct H as [H|[]]. inversion H; subst. simpl. auto.
+    - intros [o [Hin [Hi [[Hr|Hr] Hs]]]].
+      + right. exists o. split; [apply in_filter_role; auto|]. destruct o; try discriminate. simpl in *.
+        inversion Hs; subst. left. reflexivity.
+      + left. exists o. split; [apply in_filter_role; auto|]. rewrite Hs, Hi. left. reflexivity.
+  Qed.
+  Lemma obstacle_states_at_time_step_negative obs t : t < 0 -> obstacle_states_at_time_step S R tstep obs t = Err.
+  Proof. intro H. unfold Occupancy.obstacle_states_at_time_step. destruct (Z.leb_spec 0 t); [lia|reflexivity]. Qed.
+
+  (* obstacles_by_position_intervals *)
+  Variable rcenter : R -> option (Q * Q).
+  Variable spos : S -> option (Q * Q).
+  Variable inside : Q * Q -> bool.
+
+  (* the per-obstacle criterion: the centre of the occupancy at t (dynamic, phantom), of the initial position
+     (static), of the stored shape (environment) lies in the box; a region without a centre always counts *)
+  Definition pos_sel (t : Z) (o : obstacle) : bool :=
+    match o with
+    | Static _ _ init => match spos init with Some c => inside c | None => true end
+    | Env _ _ reg => match rcenter reg with None => true | Some c => inside c end
+    | _ => match occupancy_at_time o t with Some oc => centre_ok R rcenter inside oc | None => false end
+    end.
+
+  Lemma by_position_spec obs roles t i :
+    In i (by_position S R tstep place rcenter spos inside obs roles t) <->
+    exists o, In o obs /\ ob_id S R o = i /\ existsb (role_eqb (ob_role S R o)) roles = true /\ pos_sel t o = true.
+  Proof.
+    unfold by_position.
+    assert (P : forall r (f : obstacle -> bool), In i ((if existsb (role_eqb r) roles
+                   then fold_left (fun acc o => if f o then acc ++ [ob_id S R o] else acc) (filter (is_role S R r) obs) []
+                   else [])) <->
+                exists o, In o obs /\ ob_id S R o = i /\ ob_role S R o = r /\ existsb (role_eqb r) roles = true /\ f o = true).
+    { intros r f. destruct (existsb (role_eqb r) roles).
+      - rewrite (fold_snoc _ (fun o => if f o then [ob_id S R o] else [])).
+        2:{ intros acc o. destruct (f o); [reflexivity | rewrite app_nil_r; reflexivity]. }
+        simpl. rewrite in_flat_map. split.
+        + intros [o [Hin H]]. apply in_filter_role in Hin. destruct Hin. exists o. destruct (f o); [|contradiction].
+          destruct H as [H|[]]. auto.
+        + intros [o [Hin [Hi [Hr [_ Hf]]]]]. exists o. split; [apply in_filter_role; auto|]. rewrite Hf. left. exact Hi.
+      - split; [contradiction|]. intros [o [_ [_ [_ [H _]]]]]. discriminate. }
+    rewrite !in_app_iff, !P. split.
+    - intros [H|[H|[H|H]]]; destruct H as [o [Hin [Hi [Hr [He Hf]]]]]; exists o; rewrite Hr;
+        (split; [exact Hin|]; split; [exact Hi|]; split; [exact He|]); destruct o; try discriminate; exact Hf.
+    - intros [o [Hin [Hi [He Hp]]]]. destruct o as [j ty init|j ty init pr|j pr|j ty reg].
+      + right. right. left. exists (Static j ty init). auto.
+      + left. exists (Dynamic j ty init pr). auto.
+      + right. left. exists (Phantom j pr). auto.
+      + right. right. right. exists (Env j ty reg). auto.
+  Qed.
+End DispatchP.
+
+(* ================================================================== (ii) placement for exact states *)
+Open Scope Q_scope.
+
+Lemma Forall2_map_same {A B} (Rl : B -> B -> Prop) (f g : A -> B) (l : list A) :
+  (forall x, Rl (f x) (g x)) -> Forall2 Rl (map f l) (map g l).
+Proof. intro H. induction l; simpl; constructor; auto. Qed.
+
+(* the coefficient choice of rotation_translation_matrix ((1,0) when the angle is exactly 0) is invisible when
+   the oracle values are exact at 0: cos 0 = 1, sin 0 = 0 *)
+Definition exact_at_zero (a c s : Q) : Prop := a == 0 -> c == 1 /\ s == 0.
+
+Lemma coef_rt_exact a c s : exact_at_zero a c s -> fst (coef_rt a c s) == c /\ snd (coef_rt a c s) == s.
+Proof.
+  intro H. unfold coef_rt. destruct (Qeq_bool a 0) eqn:E; simpl.
+  - apply Qeq_bool_iff in E. destruct (H E) as [Hc Hs]. split; symmetry; assumption.
+  - split; reflexivity.
+Qed.
+
+(* Rectangle.vertices: centre + R(orientation) corner, for the five stored corners *)
+Lemma rect_vertices_closed l w ctr o c s : exact_at_zero o c s ->
+  Forall2 pt_eq (rect_vertices l w ctr o c s) (map (fun k => padd ctr (rot c s k)) (rect_corners l w)).
+Proof.
+  intro H. destruct (coef_rt_exact _ _ _ H) as [E1 E2].
+  unfold rect_vertices, rotate_translate_pts. apply Forall2_map_same. intros [x y]. destruct ctr as [cx cy].
+  unfold pt_eq, mapply, rotation_translation_matrix, padd, rot, px, py; simpl.
+  rewrite E1, E2. split; ring.
+Qed.
+
+Section PlaceP.
+  Variable tau : Q.
+  Hypothesis tau_pos : 0 < tau.
+  Variable fuel : nat.
+  Variable pos : pt.
+  Variables th c s : Q.          (* the state's orientation and the oracle values cos th, sin th *)
+
+  Notation rtl := (rotate_translate_local tau fuel pos th c s).
+
+  (* a placed vertex: rotated about the reference point g by th, then shifted by pos *)
+  Lemma place_vertex_coords g v :
+    px (place_vertex g pos c s v) == px g + (c * (px v - px g) - s * (py v - py g)) + px pos /\
+    py (place_vertex g pos c s v) == py g + (s * (px v - px g) + c * (py v - py g)) + py pos.
+  Proof. destruct g, v, pos. unfold place_vertex, padd, pneg, rot, px, py; simpl. split; ring. Qed.
+
+  (* ... which is R(th) v + pos when the reference point is the origin *)
+  Lemma place_vertex_origin g v : pt_eq g (0, 0) -> pt_eq (place_vertex g pos c s v) (padd (rot c s v) pos).
+  Proof.
+    destruct g as [gx gy], v, pos. unfold pt_eq, place_vertex, padd, pneg, rot, px, py; simpl.
+    intros [Hx Hy]. rewrite Hx, Hy. split; ring.
+  Qed.
+
+  (* what "sh' is sh placed at (pos, th)" means, shape kind by shape kind and member-wise through groups *)
+  Inductive placed : shape -> shape -> Prop :=
+  | PlRect l w ctr o o' : (exists k : Z, o' == o + th + inject_Z k * tau) -> - tau <= o' <= tau ->
+                          placed (Rect l w ctr o) (Rect l w (padd ctr pos) o')
+  | PlCirc r ctr : placed (Circ r ctr) (Circ r (padd ctr pos))
+  | PlPoly vs : placed (Poly vs) (Poly (map (place_vertex (centroid vs) pos c s) vs))
+  | PlGroup ms ms' : Forall2 placed ms ms' -> placed (Group ms) (Group ms').
+
+  Lemma rtl_group_go ms :
+    (fix go (l : list shape) : res (list shape) :=
+       match l with
+       | [] => Ok []
+       | x :: r => do y <- rtl x; do ys <- go r; Ok (y :: ys)
+       end) ms = mapM rtl ms.
+  Proof. induction ms as [|x r IH]; [reflexivity|]. simpl. rewrite IH. reflexivity. Qed.
+
+  Lemma rtl_group ms : rtl (Group ms) =
+    if valid_orientation tau th then do ms' <- mapM rtl ms; Ok (Group ms') else Err.
+  Proof. simpl. rewrite rtl_group_go. reflexivity. Qed.
+
+  Lemma rtl_placed : forall sh sh', rtl sh = Ok sh' -> placed sh sh'.
+  Proof.
+    induction sh as [l w ctr o|r ctr|vs|ms IH] using shape_ind'; intros sh' H.
+    - simpl in H. apply bind_ok in H. destruct H as [o' [E H]].
+      destruct (valid_orientation tau o'); [|discriminate]. inversion H; subst.
+      unfold shift_orient in E. destruct (make_valid_orientation tau fuel (o + th)) as [y|] eqn:Ey; [|discriminate].
+      inversion E; subst. destruct (mvo_spec tau tau_pos _ _ _ Ey) as [A B]. constructor; assumption.
+    - simpl in H. inversion H; subst. constructor.
+    - simpl in H. destruct (valid_orientation tau th); [|discriminate]. inversion H; subst. constructor.
+    - rewrite rtl_group in H. destruct (valid_orientation tau th); [|discriminate].
+      apply bind_ok in H. destruct H as [ms' [E H]]. inversion H; subst. constructor.
+      eapply mapM_Forall2; [|exact E]. exact IH.
+  Qed.
+
+  (* the call raises only on an invalid angle / invalid rectangle orientation *)
+  Lemma rtl_total : (3 <= fuel)%nat -> valid_orientation tau th = true ->
+    forall sh, valid_shape tau sh = true -> exists sh', rtl sh = Ok sh'.
+  Proof.
+    intros Hf Hth. induction sh as [l w ctr o|r ctr|vs|ms IH] using shape_ind'; intro V.
+    - simpl in V. destruct (shift_orient_total tau tau_pos fuel th Hf Hth o V) as [o' E]. simpl. rewrite E. simpl.
+      unfold shift_orient in E. destruct (make_valid_orientation tau fuel (o + th)) as [y|] eqn:Ey; [|discriminate].
+      inversion E; subst. destruct (mvo_spec tau tau_pos _ _ _ Ey) as [_ [B1 B2]].
+      assert (Vo : valid_orientation tau o' = true).
+      { unfold valid_orientation. rewrite andb_true_iff, !Qle_bool_iff. split; assumption. }
+      rewrite Vo. eexists; reflexivity.
+    - simpl. eexists; reflexivity.
+    - simpl. rewrite Hth. eexists; reflexivity.
+    - rewrite rtl_group, Hth. simpl in V.
+      destruct (mapM_total rtl ms) as [ms' E].
+      { rewrite forallb_forall in V. rewrite Forall_forall in *. intros x Hx. apply IH; auto. }
+      rewrite E. simpl. eexists; reflexivity.
+  Qed.
+
+  (* rectangle: the corners of the placed rectangle are the placed corners of the rectangle (rotation about its
+     centre), given the addition theorem for the oracle values of orientation + th *)
+  Lemma rect_vertices_placed l w ctr o co so o' c' s' :
+    exact_at_zero o co so -> exact_at_zero o' c' s' -> c' == co * c - so * s -> s' == so * c + co * s ->
+    Forall2 pt_eq (rect_vertices l w (padd ctr pos) o' c' s')
+                  (map (place_vertex ctr pos c s) (rect_vertices l w ctr o co so)).
+  Proof.
+    intros H0 H1 Hc Hs. destruct (coef_rt_exact _ _ _ H0) as [E1 E2]. destruct (coef_rt_exact _ _ _ H1) as [E3 E4].
+    unfold rect_vertices, rotate_translate_pts. rewrite map_map. apply Forall2_map_same. intros [x y].
+    destruct ctr as [cx cy], pos as [tx ty].
+    unfold pt_eq, place_vertex, mapply, rotation_translation_matrix, padd, pneg, rot, px, py; simpl.
+    rewrite E1, E2, E3, E4, Hc, Hs. split; ring.
+  Qed.
+End PlaceP.
+
+(* ================================================================== (iii) enclosure for uncertain states *)
+Lemma abs_mul_le a x B : - B <= x -> x <= B -> - (Qabs a * B) <= a * x /\ a * x <= Qabs a * B.
+Proof.
+  intros H1 H2. destruct (Qlt_le_dec a 0) as [Ha|Ha].
+  - rewrite (Qabs_neg a) by lra. split; nra.
+  - rewrite (Qabs_pos a) by lra. split; nra.
+Qed.
+
+Lemma sq_nonneg z : 0 <= z * z.
+Proof. destruct (Qlt_le_dec z 0); nra. Qed.
+
+Lemma sq_le_abs a b : 0 <= b -> a * a <= b * b -> - b <= a /\ a <= b.
+Proof. intros. split; nra. Qed.
+
+Definition in_box (b : box) (p : pt) : Prop :=
+  b_minx b <= px p /\ px p <= b_maxx b /\ b_miny b <= py p /\ py p <= b_maxy b.
+(* p rotated about c0 with coefficients (c, s) *)
+Definition rot_about (c0 : pt) (c s : Q) (p : pt) : pt := padd c0 (rot c s (padd p (pneg c0))).
+
+(* the positions a position measurement admits: the exact point; a Rectangle / Polygon region: every point that,
+   rotated by -psi_d about the region's centre, lies within the measured bounds of the rotated region (which holds
+   for every point of the region when the bounds are those of the rotated region); a Circle region: the disc *)
+Definition pos_admissible (pm : pos_meas) (cd sd : Q) (p : pt) : Prop :=
+  match pm with
+  | PMExact p0 => pt_eq p p0
+  | PMBox c0 b => in_box b (rot_about c0 cd (- sd) p)
+  | PMCirc c0 r => 0 <= r /\ dist2 p c0 <= r * r
+  | PMGroup => False
+  end.
+
+(* the algebraic facts about the oracle values that the enclosure formula relies on *)
+Record orc_ok (off_v : pt) (orc : enc_oracle) : Prop := {
+  ok_unit_d : cos_d orc * cos_d orc + sin_d orc * sin_d orc == 1;
+  ok_half : 0 <= sin_half orc;
+  ok_norm : 0 <= norm_off orc;
+  ok_norm2 : norm_off orc * norm_off orc == px off_v * px off_v + py off_v * py off_v
+}.
+(* an admissible deviation delta = th - psi_d of the orientation, |delta| <= delta_psi, through its cos / sin:
+   l cos d + w sin d does not exceed its value at delta_psi_l = min(delta_psi, arctan(w/l)) (likewise with l, w
+   swapped), and sin^2(d/2) <= sin^2(delta_psi/2) *)
+Record dev_ok (l_v w_v : Q) (orc : enc_oracle) (cdl sdl : Q) : Prop := {
+  dev_unit : cdl * cdl + sdl * sdl == 1;
+  dev_len : l_v * Qabs cdl + w_v * Qabs sdl <= l_v * cos_l orc + w_v * sin_l orc;
+  dev_wid : w_v * Qabs cdl + l_v * Qabs sdl <= w_v * cos_w orc + l_v * sin_w orc;
+  dev_half : 2 - 2 * cdl <= 4 * (sin_half orc * sin_half orc)
+}.
+
+(* part of dev_len that IS algebra.  saturated case (delta_psi >= arctan(w/l)): delta_psi_l = arctan(w/l), whose
+   cos / sin are l/d, w/d with d = sqrt(l^2 + w^2); then the bound holds for every unit vector (Cauchy-Schwarz) *)
+Lemma dev_len_saturated l w d cl sl a b :
+  0 <= l -> 0 <= w -> 0 < d -> d * d == l * l + w * w -> cl * d == l -> sl * d == w ->
+  a * a + b * b == 1 -> l * Qabs a + w * Qabs b <= l * cl + w * sl.
+Proof.
+  intros Hl Hw Hd Hdd Hcl Hsl Hu.
+  assert (E : l * cl + w * sl == d).
+  { assert (E1 : d * (l * cl + w * sl) == d * d).
+    { rewrite Hdd. setoid_replace (d * (l * cl + w * sl)) with (l * (cl * d) + w * (sl * d)) by ring.
+      rewrite Hcl, Hsl. ring. }
+    apply (Qmult_inj_l _ _ d); [lra | exact E1]. }
+  rewrite E.
+  assert (Ha : Qabs a * Qabs a == a * a).
+  { destruct (Qlt_le_dec a 0); [rewrite (Qabs_neg a) by lra | rewrite (Qabs_pos a) by lra]; ring. }
+  assert (Hb : Qabs b * Qabs b == b * b).
+  { destruct (Qlt_le_dec b 0); [rewrite (Qabs_neg b) by lra | rewrite (Qabs_pos b) by lra]; ring. }
+  pose proof (Qabs_nonneg a) as Na. pose proof (Qabs_nonneg b) as Nb.
+  set (x := Qabs a) in *. set (y := Qabs b) in *.
+  assert (S : (l * x + w * y) * (l * x + w * y) <= d * d).
+  { assert (I : (l * x + w * y) * (l * x + w * y) + (l * y - w * x) * (l * y - w * x)
+                == (l * l + w * w) * (x * x + y * y)) by ring.
+    assert (P : 0 <= (l * y - w * x) * (l * y - w * x)) by apply sq_nonneg.
+    rewrite Ha, Hb, Hu in I. lra. }
+  apply sq_le_abs in S; lra.
+Qed.
+(* unsaturated case (delta_psi < arctan(w/l)): delta_psi_l = delta_psi with cos / sin (c2, s2), where
+   w c2 - l s2 >= 0 (tan delta_psi <= w/l); an angle d = delta_psi - e, 0 <= e, has cos d = c2 ce + s2 se,
+   sin d = s2 ce - c2 se (subtraction theorem) with ce <= 1, 0 <= se *)
+Lemma dev_len_unsaturated l w c2 s2 ce se a b :
+  ce <= 1 -> 0 <= se -> 0 <= l * c2 + w * s2 -> 0 <= w * c2 - l * s2 ->
+  a == c2 * ce + s2 * se -> b == s2 * ce - c2 * se -> l * a + w * b <= l * c2 + w * s2.
+Proof.
+  intros H1 H2 H3 H4 Ha Hb. rewrite Ha, Hb.
+  setoid_replace (l * (c2 * ce + s2 * se) + w * (s2 * ce - c2 * se))
+    with (ce * (l * c2 + w * s2) - se * (w * c2 - l * s2)) by ring.
+  nra.
+Qed.
+
+Lemma box_len_eq b u : in_box b u -> box_len b == b_maxx b - b_minx b /\ box_wid b == b_maxy b - b_miny b.
+Proof.
+  intros [H1 [H2 [H3 H4]]]. unfold box_len, box_wid. rewrite !Qabs_pos by lra. split; reflexivity.
+Qed.
+
+Section EnclosureP.
+  Variable orc : enc_oracle.
+  Notation cd := (cos_d orc).
+  Notation sd := (sin_d orc).
+
+  (* position part: in the frame of the returned rectangle the admissible positions deviate from
+     centre + offset_s by at most (l_s/2, w_s/2) *)
+  Definition pos_params (pm : pos_meas) : Q * Q * pt * pt :=
+    match pm with
+    | PMExact p => (0, 0, p, (0, 0))
+    | PMBox c0 b => (box_len b, box_wid b, c0, padd (box_mid b) (pneg c0))
+    | PMCirc c0 r => (2 * r, 2 * r, c0, (0, 0))
+    | PMGroup => (0, 0, (0, 0), (0, 0))
+    end.
+
+  Lemma pos_part pm p l_s w_s ctr off_s :
+    cd * cd + sd * sd == 1 -> pos_admissible pm cd sd p -> pos_params pm = (l_s, w_s, ctr, off_s) ->
+    let dx := px p - px ctr in let dy := py p - py ctr in
+    (- ((1 # 2) * l_s) <= cd * dx + sd * dy - px off_s /\ cd * dx + sd * dy - px off_s <= (1 # 2) * l_s) /\
+    (- ((1 # 2) * w_s) <= - sd * dx + cd * dy - py off_s /\ - sd * dx + cd * dy - py off_s <= (1 # 2) * w_s).
+  Proof.
+    intros Hu Ha Hp. destruct pm as [p0|c0 b|c0 r|]; simpl in Hp; inversion Hp; subst; clear Hp; simpl in *.
+    - destruct Ha as [Hx Hy]. unfold px, py in *. simpl. rewrite Hx, Hy. split; split; ring_simplify; lra.
+    - pose proof (box_len_eq _ _ Ha) as [El Ew]. rewrite El, Ew.
+      destruct Ha as [H1 [H2 [H3 H4]]]. destruct p as [x y], ctr as [cx cy].
+      unfold rot_about, box_mid, padd, pneg, rot, px, py in *; simpl in *.
+      split; split; lra.
+    - destruct Ha as [Hr Hd]. destruct p as [x y], ctr as [cx cy]. unfold dist2, px, py in *; simpl in *.
+      set (dx := x - cx) in *. set (dy := y - cy) in *.
+      assert (I : (cd * dx + sd * dy) * (cd * dx + sd * dy) + (- sd * dx + cd * dy) * (- sd * dx + cd * dy)
+                  == (cd * cd + sd * sd) * (dx * dx + dy * dy)) by ring.
+      rewrite Hu in I.
+      assert (P1 : 0 <= (cd * dx + sd * dy) * (cd * dx + sd * dy)) by apply sq_nonneg.
+      assert (P2 : 0 <= (- sd * dx + cd * dy) * (- sd * dx + cd * dy)) by apply sq_nonneg.
+      assert (S1 : (cd * dx + sd * dy) * (cd * dx + sd * dy) <= r * r) by lra.
+      assert (S2 : (- sd * dx + cd * dy) * (- sd * dx + cd * dy) <= r * r) by lra.
+      apply sq_le_abs in S1; [|exact Hr]. apply sq_le_abs in S2; [|exact Hr]. split; split; lra.
+    - contradiction.
+  Qed.
+
+  (* rotating the offset of the bounding-box centre by the deviation moves it by at most arc *)
+  Lemma arc_part off_v cdl sdl : orc_ok off_v orc -> cdl * cdl + sdl * sdl == 1 ->
+    2 - 2 * cdl <= 4 * (sin_half orc * sin_half orc) ->
+    let arc := 2 * norm_off orc * sin_half orc in
+    let qx := (cdl - 1) * px off_v - sdl * py off_v in
+    let qy := sdl * px off_v + (cdl - 1) * py off_v in
+    (- arc <= qx /\ qx <= arc) /\ (- arc <= qy /\ qy <= arc).
+  Proof.
+    intros [_ Hh Hn Hn2] Hu Hd arc qx qy.
+    set (n := norm_off orc) in *. set (h := sin_half orc) in *. set (ox := px off_v) in *. set (oy := py off_v) in *.
+    assert (I : qx * qx + qy * qy == (2 - 2 * cdl) * (n * n)).
+    { unfold qx, qy. rewrite Hn2.
+      setoid_replace ((2 - 2 * cdl) * (ox * ox + oy * oy))
+        with ((cdl * cdl + sdl * sdl + 1 - 2 * cdl) * (ox * ox + oy * oy)) by (rewrite Hu; ring).
+      ring. }
+    assert (Pn : 0 <= n * n) by apply sq_nonneg.
+    assert (B : (2 - 2 * cdl) * (n * n) <= arc * arc).
+    { unfold arc. setoid_replace (2 * n * h * (2 * n * h)) with (4 * (h * h) * (n * n)) by ring. nra. }
+    assert (Pa : 0 <= arc) by (unfold arc; nra).
+    assert (P1 : 0 <= qx * qx) by apply sq_nonneg. assert (P2 : 0 <= qy * qy) by apply sq_nonneg.
+    assert (S1 : qx * qx <= arc * arc) by lra. assert (S2 : qy * qy <= arc * arc) by lra.
+    apply sq_le_abs in S1; [|exact Pa]. apply sq_le_abs in S2; [|exact Pa]. tauto.
+  Qed.
+
+  (* a point of the bounding box, rotated by the deviation about the box centre, stays within the widened extents *)
+  Lemma dev_part b u cdl sdl : in_box b u -> dev_ok (box_len b) (box_wid b) orc cdl sdl ->
+    let l_v := box_len b in let w_v := box_wid b in
+    let l_psi := Qabs ((1 - cos_l orc) * l_v - sin_l orc * w_v) in
+    let w_psi := Qabs ((1 - cos_w orc) * w_v - sin_w orc * l_v) in
+    let ex := px u - px (box_mid b) in let ey := py u - py (box_mid b) in
+    (- ((1 # 2) * (l_v + l_psi)) <= cdl * ex - sdl * ey /\ cdl * ex - sdl * ey <= (1 # 2) * (l_v + l_psi)) /\
+    (- ((1 # 2) * (w_v + w_psi)) <= sdl * ex + cdl * ey /\ sdl * ex + cdl * ey <= (1 # 2) * (w_v + w_psi)).
+  Proof.
+    intros Hb [_ Hl Hw _]. pose proof (box_len_eq _ _ Hb) as [El Ew]. intros l_v w_v l_psi w_psi ex ey.
+    pose proof (Qle_Qabs (- ((1 - cos_l orc) * l_v - sin_l orc * w_v))) as A1. rewrite Qabs_opp in A1. fold l_psi in A1.
+    pose proof (Qle_Qabs (- ((1 - cos_w orc) * w_v - sin_w orc * l_v))) as A2. rewrite Qabs_opp in A2. fold w_psi in A2.
+    fold l_v w_v in Hl, Hw, El, Ew.
+    destruct Hb as [H1 [H2 [H3 H4]]].
+    assert (Bx : - ((1 # 2) * l_v) <= ex /\ ex <= (1 # 2) * l_v).
+    { unfold ex, box_mid, px, py in *; simpl. lra. }
+    assert (By : - ((1 # 2) * w_v) <= ey /\ ey <= (1 # 2) * w_v).
+    { unfold ey, box_mid, px, py in *; simpl. lra. }
+    destruct Bx as [Bx1 Bx2]. destruct By as [By1 By2].
+    pose proof (abs_mul_le cdl ex _ Bx1 Bx2) as [C1 C2]. pose proof (abs_mul_le sdl ey _ By1 By2) as [C3 C4].
+    pose proof (abs_mul_le sdl ex _ Bx1 Bx2) as [C5 C6]. pose proof (abs_mul_le cdl ey _ By1 By2) as [C7 C8].
+    set (ac := Qabs cdl) in *. set (asn := Qabs sdl) in *.
+    split; split; lra.
+  Qed.
+
+  (* MAIN: polygon / rectangle shapes (bounding box b, centre of rotation ref) *)
+  Theorem enclosure1_encloses b ref pm om L W C psi :
+    enclosure1 (box_len b) (box_wid b) ref (padd (box_mid b) (pneg ref)) pm om orc = Ok (Rect L W C psi) ->
+    orc_ok (padd (box_mid b) (pneg ref)) orc ->
+    forall u p cdl sdl,
+      in_box b u -> pos_admissible pm cd sd p -> dev_ok (box_len b) (box_wid b) orc cdl sdl ->
+      in_rect L W C cd sd (place_vertex ref p (cd * cdl - sd * sdl) (sd * cdl + cd * sdl) u).
+  Proof.
+    intros He Hok u p cdl sdl Hu Hp Hdev.
+    pose proof (ok_unit_d _ _ Hok) as Hud.
+    destruct (pos_params pm) as [[[l_s w_s] ctr] off_s] eqn:Epp.
+    pose proof (pos_part pm p l_s w_s ctr off_s Hud Hp Epp) as Hpos. cbv zeta in Hpos.
+    pose proof (arc_part _ cdl sdl Hok (dev_unit _ _ _ _ _ Hdev) (dev_half _ _ _ _ _ Hdev)) as Harc. cbv zeta in Harc.
+    pose proof (dev_part b u cdl sdl Hu Hdev) as Hd. cbv zeta in Hd.
+    assert (EL : L == l_s + box_len b + Qabs ((1 - cos_l orc) * box_len b - sin_l orc * box_wid b)
+                      + 2 * (2 * norm_off orc * sin_half orc) /\
+                 W == w_s + box_wid b + Qabs ((1 - cos_w orc) * box_wid b - sin_w orc * box_len b)
+                      + 2 * (2 * norm_off orc * sin_half orc) /\
+                 C = padd (padd ctr ref) (rot cd sd (padd off_s (padd (box_mid b) (pneg ref))))).
+    { unfold enclosure1 in He. destruct pm as [p0|c0 bb|c0 r|]; simpl in Epp; inversion Epp; subst;
+        try discriminate; inversion He; subst; repeat split; reflexivity. }
+    destruct EL as [EL [EW EC]]. subst C. clear He Epp.
+    set (l_psi := Qabs ((1 - cos_l orc) * box_len b - sin_l orc * box_wid b)) in *.
+    set (w_psi := Qabs ((1 - cos_w orc) * box_wid b - sin_w orc * box_len b)) in *.
+    set (arc := 2 * norm_off orc * sin_half orc) in *.
+    set (l_v := box_len b) in *. set (w_v := box_wid b) in *.
+    destruct u as [ux uy], p as [x y], ctr as [cx cy], ref as [rx ry], off_s as [osx osy].
+    remember (box_mid b) as mid eqn:Emid. destruct mid as [mx my].
+    unfold in_rect, place_vertex, padd, pneg, rot, px, py in *; cbn [fst snd] in *.
+    set (A := cd * (x - cx) + sd * (y - cy)) in *. set (A' := - sd * (x - cx) + cd * (y - cy)) in *.
+    set (ex := ux - mx) in *. set (ey := uy - my) in *.
+    set (ovx := mx - rx) in *. set (ovy := my - ry) in *.
+    set (U := cd * (rx + ((cd * cdl - sd * sdl) * (ux + - rx) - (sd * cdl + cd * sdl) * (uy + - ry)) + x
+                    + - (cx + rx + (cd * (osx + (mx + - rx)) - sd * (osy + (my + - ry)))))
+              + sd * (ry + ((sd * cdl + cd * sdl) * (ux + - rx) + (cd * cdl - sd * sdl) * (uy + - ry)) + y
+                      + - (cy + ry + (sd * (osx + (mx + - rx)) + cd * (osy + (my + - ry)))))).
+    set (V := - sd * (rx + ((cd * cdl - sd * sdl) * (ux + - rx) - (sd * cdl + cd * sdl) * (uy + - ry)) + x
+                    + - (cx + rx + (cd * (osx + (mx + - rx)) - sd * (osy + (my + - ry)))))
+              + cd * (ry + ((sd * cdl + cd * sdl) * (ux + - rx) + (cd * cdl - sd * sdl) * (uy + - ry)) + y
+                      + - (cy + ry + (sd * (osx + (mx + - rx)) + cd * (osy + (my + - ry)))))).
+    assert (EU : U == (A - osx) + (cdl * ex - sdl * ey) + ((cdl - 1) * ovx - sdl * ovy)).
+    { transitivity ((A - osx) + (cdl * ex - sdl * ey) + ((cdl - 1) * ovx - sdl * ovy)
+                    + (cd * cd + sd * sd - 1) * (cdl * (ux - rx) - sdl * (uy - ry) - (osx + ovx))).
+      - unfold U, A, ex, ey, ovx, ovy. ring.
+      - rewrite Hud. ring. }
+    assert (EV : V == (A' - osy) + (sdl * ex + cdl * ey) + (sdl * ovx + (cdl - 1) * ovy)).
+    { transitivity ((A' - osy) + (sdl * ex + cdl * ey) + (sdl * ovx + (cdl - 1) * ovy)
+                    + (cd * cd + sd * sd - 1) * (sdl * (ux - rx) + cdl * (uy - ry) - (osy + ovy))).
+      - unfold V, A', ex, ey, ovx, ovy. ring.
+      - rewrite Hud. ring. }
+    subst ovx ovy. destruct Hpos as [[? ?] [? ?]], Harc as [[? ?] [? ?]], Hd as [[? ?] [? ?]].
+    split; apply Qabs_Qle_condition; rewrite ?EU, ?EV, ?EL, ?EW; split; lra.
+  Qed.
+
+  (* MAIN: circle shapes; a disc does not care about the orientation *)
+  Theorem enclosure1_encloses_circle r ctr0 pm om L W C psi :
+    enclosure1 (2 * r) (2 * r) ctr0 (0, 0) pm om orc = Ok (Rect L W C psi) ->
+    orc_ok (0, 0) orc -> 0 <= r ->
+    forall p e, pos_admissible pm cd sd p -> px e * px e + py e * py e <= r * r ->
+      in_rect L W C cd sd (padd (padd ctr0 p) e).
+  Proof.
+    intros He Hok Hr p e Hp Hee.
+    pose proof (ok_unit_d _ _ Hok) as Hud.
+    destruct (pos_params pm) as [[[l_s w_s] ctr] off_s] eqn:Epp.
+    pose proof (pos_part pm p l_s w_s ctr off_s Hud Hp Epp) as Hpos. cbv zeta in Hpos.
+    assert (EL : L == l_s + 2 * r + Qabs ((1 - cos_l orc) * (2 * r) - sin_l orc * (2 * r))
+                      + 2 * (2 * norm_off orc * sin_half orc) /\
+                 W == w_s + 2 * r + Qabs ((1 - cos_w orc) * (2 * r) - sin_w orc * (2 * r))
+                      + 2 * (2 * norm_off orc * sin_half orc) /\
+                 C = padd (padd ctr ctr0) (rot cd sd (padd off_s (0, 0)))).
+    { unfold enclosure1 in He. destruct pm as [p0|c0 bb|c0 r0|]; simpl in Epp; inversion Epp; subst;
+        try discriminate; inversion He; subst; repeat split; reflexivity. }
+    destruct EL as [EL [EW EC]]. subst C. clear He Epp.
+    pose proof (Qabs_nonneg ((1 - cos_l orc) * (2 * r) - sin_l orc * (2 * r))) as N1.
+    pose proof (Qabs_nonneg ((1 - cos_w orc) * (2 * r) - sin_w orc * (2 * r))) as N2.
+    set (l_psi := Qabs ((1 - cos_l orc) * (2 * r) - sin_l orc * (2 * r))) in *.
+    set (w_psi := Qabs ((1 - cos_w orc) * (2 * r) - sin_w orc * (2 * r))) in *.
+    assert (Parc : 0 <= 2 * norm_off orc * sin_half orc).
+    { pose proof (ok_half _ _ Hok). pose proof (ok_norm _ _ Hok). nra. }
+    set (arc := 2 * norm_off orc * sin_half orc) in *.
+    destruct e as [ex ey], p as [x y], ctr as [cx cy], ctr0 as [rx ry], off_s as [osx osy].
+    unfold in_rect, padd, pneg, rot, px, py in *; cbn [fst snd] in *.
+    set (A := cd * (x - cx) + sd * (y - cy)) in *. set (A' := - sd * (x - cx) + cd * (y - cy)) in *.
+    set (g := cd * ex + sd * ey). set (g' := - sd * ex + cd * ey).
+    assert (I : g * g + g' * g' == (cd * cd + sd * sd) * (ex * ex + ey * ey)) by (unfold g, g'; ring).
+    rewrite Hud in I.
+    assert (P1 : 0 <= g * g) by apply sq_nonneg. assert (P2 : 0 <= g' * g') by apply sq_nonneg.
+    assert (S1 : g * g <= r * r) by lra. assert (S2 : g' * g' <= r * r) by lra.
+    apply sq_le_abs in S1; [|exact Hr]. apply sq_le_abs in S2; [|exact Hr].
+    set (U := cd * (rx + x + ex + - (cx + rx + (cd * (osx + 0) - sd * (osy + 0))))
+              + sd * (ry + y + ey + - (cy + ry + (sd * (osx + 0) + cd * (osy + 0))))).
+    set (V := - sd * (rx + x + ex + - (cx + rx + (cd * (osx + 0) - sd * (osy + 0))))
+              + cd * (ry + y + ey + - (cy + ry + (sd * (osx + 0) + cd * (osy + 0))))).
+    assert (EU : U == (A - osx) + g).
+    { transitivity ((A - osx) + g + (cd * cd + sd * sd - 1) * (- osx)).
+      - unfold U, A, g. ring.
+      - rewrite Hud. ring. }
+    assert (EV : V == (A' - osy) + g').
+    { transitivity ((A' - osy) + g' + (cd * cd + sd * sd - 1) * (- osy)).
+      - unfold V, A', g'. ring.
+      - rewrite Hud. ring. }
+    destruct Hpos as [[? ?] [? ?]], S1 as [? ?], S2 as [? ?].
+    clear I P1 P2 Hee. clearbody U V g g' A A' l_psi w_psi arc.
+    split; apply Qabs_Qle_condition; rewrite ?EU, ?EV, ?EL, ?EW; split; lra.
+  Qed.
+End EnclosureP.
+
+(* what enclosure1 returns, and when it raises: only for a ShapeGroup as position region *)
+Lemma enclosure1_shape l_v w_v ref off pm om orc :
+  (pm = PMGroup /\ enclosure1 l_v w_v ref off pm om orc = Err) \/
+  (exists L W C, enclosure1 l_v w_v ref off pm om orc = Ok (Rect L W C (psi_of om))).
+Proof.
+  destruct pm; [right|right|right|left; split; reflexivity]; unfold enclosure1; simpl; eexists _, _, _; reflexivity.
+Qed.
+
+(* shape groups: member by member, every member's region is that member's own enclosure *)
+Lemma enclosure_group_go pm om (ms : list (shape_meas * enc_oracle)) :
+  (fix go (l : list (shape_meas * enc_oracle)) : res (list shape) :=
+     match l with
+     | [] => Ok []
+     | mo :: r => do y <- enclosure (fst mo) pm om (snd mo); do ys <- go r; Ok (y :: ys)
+     end) ms = mapM (fun mo => enclosure (fst mo) pm om (snd mo)) ms.
+Proof. induction ms as [|x r IH]; [reflexivity|]. simpl. rewrite IH. reflexivity. Qed.
+
+Lemma enclosure_group_memberwise ms pm om orc sh :
+  enclosure (SMGroup ms) pm om orc = Ok sh ->
+  exists shs, sh = Group shs /\ Forall2 (fun mo y => enclosure (fst mo) pm om (snd mo) = Ok y) ms shs.
+Proof.
+  simpl. rewrite enclosure_group_go. intro H. apply bind_ok in H. destruct H as [shs [E H]]. inversion H; subst.
+  exists shs. split; [reflexivity|]. eapply mapM_all; [|exact E]. intros x y Hxy. exact Hxy.
+Qed.
+
+(* ---- the bounding box computed from the vertices contains every vertex *)
+Lemma box_add_grows b p q : in_box b q -> in_box (box_add b p) q.
+Proof.
+  unfold in_box, box_add; simpl. intros [H1 [H2 [H3 H4]]].
+  pose proof (Q.le_min_l (b_minx b) (px p)). pose proof (Q.le_min_l (b_miny b) (py p)).
+  pose proof (Q.le_max_l (b_maxx b) (px p)). pose proof (Q.le_max_l (b_maxy b) (py p)).
+  repeat split; lra.
+Qed.
+Lemma box_add_new b p : in_box (box_add b p) p.
+Proof.
+  unfold in_box, box_add; simpl.
+  pose proof (Q.le_min_r (b_minx b) (px p)). pose proof (Q.le_min_r (b_miny b) (py p)).
+  pose proof (Q.le_max_r (b_maxx b) (px p)). pose proof (Q.le_max_r (b_maxy b) (py p)).
+  repeat split; lra.
+Qed.
+Lemma fold_box_add_contains : forall r b q, in_box b q \/ List.In q r -> in_box (fold_left box_add r b) q.
+Proof.
+  induction r as [|x r IH]; intros b q H; simpl.
+  - destruct H as [H|[]]. exact H.
+  - apply IH. destruct H as [H|[H|H]].
+    + left. apply box_add_grows. exact H.
+    + subst. left. apply box_add_new.
+    + right. exact H.
+Qed.
+Lemma bbox_contains vs b v : bbox vs = Some b -> List.In v vs -> in_box b v.
+Proof.
+  destruct vs as [|p r]; [discriminate|]. simpl. intros H Hin. inversion H; subst. clear H.
+  apply fold_box_add_contains. destruct Hin as [E|Hin]; [left|right; exact Hin].
+  subst. unfold in_box, bbox1; simpl. repeat split; lra.
+Qed.
+
+(* a rectangle is convex: with two points it contains the segment between them, so a polygon whose vertices are
+   inside lies inside *)
+Lemma in_rect_convex l w ctr c s x y t : 0 <= t -> t <= 1 -> in_rect l w ctr c s x -> in_rect l w ctr c s y ->
+  in_rect l w ctr c s ((1 - t) * px x + t * px y, (1 - t) * py x + t * py y).
+Proof.
+  intros H0 H1 [Hx1 Hx2] [Hy1 Hy2]. destruct x as [x1 x2], y as [y1 y2], ctr as [c1 c2].
+  unfold in_rect, padd, pneg, px, py in *; cbn [fst snd] in *.
+  apply Qabs_Qle_condition in Hx1, Hx2, Hy1, Hy2.
+  destruct Hx1 as [A1 A2], Hx2 as [A3 A4], Hy1 as [B1 B2], Hy2 as [B3 B4].
+  set (u1 := c * (x1 + - c1) + s * (x2 + - c2)) in *. set (v1 := c * (y1 + - c1) + s * (y2 + - c2)) in *.
+  set (u2 := - s * (x1 + - c1) + c * (x2 + - c2)) in *. set (v2 := - s * (y1 + - c1) + c * (y2 + - c2)) in *.
+  assert (E1 : c * ((1 - t) * x1 + t * y1 + - c1) + s * ((1 - t) * x2 + t * y2 + - c2) == (1 - t) * u1 + t * v1)
+    by (unfold u1, v1; ring).
+  assert (E2 : - s * ((1 - t) * x1 + t * y1 + - c1) + c * ((1 - t) * x2 + t * y2 + - c2) == (1 - t) * u2 + t * v2)
+    by (unfold u2, v2; ring).
+  clearbody u1 v1 u2 v2.
+  split; apply Qabs_Qle_condition; rewrite ?E1, ?E2; split; nra.
+Qed.
+
+(* corollaries of the main enclosure theorem with the bounds computed from the shape itself *)
+Theorem enclosure_encloses_polygon orc vs b pm om L W C psi :
+  bbox vs = Some b ->
+  enclosure (SMBox b (centroid vs)) pm om orc = Ok (Rect L W C psi) ->
+  orc_ok (padd (box_mid b) (pneg (centroid vs))) orc ->
+  forall v p cdl sdl,
+    List.In v vs -> pos_admissible pm (cos_d orc) (sin_d orc) p -> dev_ok (box_len b) (box_wid b) orc cdl sdl ->
+    in_rect L W C (cos_d orc) (sin_d orc)
+      (place_vertex (centroid vs) p (cos_d orc * cdl - sin_d orc * sdl) (sin_d orc * cdl + cos_d orc * sdl) v).
+Proof.
+  intros Hb He Hok v p cdl sdl Hin Hp Hdev. simpl in He.
+  eapply enclosure1_encloses; eauto. eapply bbox_contains; eauto.
+Qed.
+
+Theorem enclosure_encloses_rectangle orc l w ctr o co so b pm om L W C psi :
+  bbox (rect_vertices l w ctr o co so) = Some b ->
+  enclosure (SMBox b ctr) pm om orc = Ok (Rect L W C psi) ->
+  orc_ok (padd (box_mid b) (pneg ctr)) orc ->
+  forall v p cdl sdl,
+    List.In v (rect_vertices l w ctr o co so) -> pos_admissible pm (cos_d orc) (sin_d orc) p ->
+    dev_ok (box_len b) (box_wid b) orc cdl sdl ->
+    in_rect L W C (cos_d orc) (sin_d orc)
+      (place_vertex ctr p (cos_d orc * cdl - sin_d orc * sdl) (sin_d orc * cdl + cos_d orc * sdl) v).
+Proof.
+  intros Hb He Hok v p cdl sdl Hin Hp Hdev. simpl in He.
+  eapply enclosure1_encloses; eauto. eapply bbox_contains; eauto.
+Qed.
+
+(* ---- heading of a state *)
+Lemma heading_stored atan2f st o : s_ori st = Some o -> heading atan2f st = Some o.
+Proof. unfold heading. intro H. rewrite H. reflexivity. Qed.
+Lemma heading_point_mass atan2f st vx vy : s_ori st = None -> s_vec st = Some (vx, vy) ->
+  heading atan2f st = Some (OExact (atan2f vy vx)).
+Proof. unfold heading. intros H1 H2. rewrite H1, H2. reflexivity. Qed.
+
+Lemma occupancy_exact_eq tau fuel cosf sinf atan2f sh st p th :
+  s_pos st = Some (PPoint p) -> heading atan2f st = Some (OExact th) ->
+  occupancy_exact tau fuel cosf sinf atan2f sh st = rotate_translate_local tau fuel p th (cosf th) (sinf th) sh /\
+  is_uncertain atan2f st = false.
+Proof. unfold occupancy_exact, is_uncertain. intros H1 H2. rewrite H1, H2. split; reflexivity. Qed.
+
+(* ================================================================== non-vacuity *)
+Open Scope Z_scope.
+(* a dynamic obstacle, initial state at 2, trajectory of three states starting at 4 (a gap at 3): the hypotheses
+   [state_based] / [consecutive] hold and the dispatch gives the expected answers *)
+Example dispatch_nonvacuous :
+  let o := Dynamic (R := Z) 7 0 (2, 20) (Some (PrTraj {| t_init := 4; t_states := [(4, 40); (5, 50); (6, 60)] |})) in
+  state_based (Z * Z) Z fst o = true /\
+  map (fun t => option_map (@o_region Z) (occupancy_at_time (Z * Z) Z fst snd o t)) [1; 2; 3; 4; 5; 6; 7]
+    = [None; Some 20; None; Some 40; Some 50; Some 60; None] /\
+  map (state_at_time (Z * Z) Z fst o) [1; 2; 3; 4; 6; 7] = [None; Some (2, 20); None; Some (4, 40); Some (6, 60); None].
+Proof. vm_compute. repeat split. Qed.
+
+Open Scope Q_scope.
+(* an enclosure instance in which every hypothesis of the main theorem holds with a genuine deviation (3-4-5 angles) *)
+Definition ex_orc : enc_oracle :=
+  {| cos_l := 4 # 5; sin_l := 3 # 5; cos_w := 4 # 5; sin_w := 3 # 5; cos_d := 3 # 5; sin_d := 4 # 5;
+     norm_off := 5; sin_half := 1 # 3 |}.
+Definition ex_box : box := {| b_minx := 0; b_miny := 0; b_maxx := 6; b_maxy := 8 |}.
+Example enclosure_nonvacuous :
+  exists L W C psi,
+    enclosure1 (box_len ex_box) (box_wid ex_box) (0, 0) (padd (box_mid ex_box) (pneg (0, 0)))
+               (PMBox (1, 2) {| b_minx := 0; b_miny := 1; b_maxx := 2; b_maxy := 3 |})
+               (OMItv {| lo := 0; hi := 1 |}) ex_orc = Ok (Rect L W C psi) /\
+    orc_ok (padd (box_mid ex_box) (pneg (0, 0))) ex_orc /\
+    in_box ex_box (6, 8) /\
+    pos_admissible (PMBox (1, 2) {| b_minx := 0; b_miny := 1; b_maxx := 2; b_maxy := 3 |}) (3 # 5) (4 # 5) (1, 2) /\
+    dev_ok (box_len ex_box) (box_wid ex_box) ex_orc (4 # 5) (- (3 # 5)) /\ ~ (4 # 5) == 1.
+Proof.
+  eexists _, _, _, _. split; [reflexivity|]. split; [|split; [|split; [|split]]].
+  - constructor; vm_compute; try reflexivity; discriminate.
+  - unfold in_box; simpl. repeat split; vm_compute; discriminate.
+  - unfold pos_admissible, in_box; simpl. repeat split; vm_compute; discriminate.
+  - constructor; vm_compute; try reflexivity; discriminate.
+  - vm_compute. discriminate.
+Qed.
